@@ -682,7 +682,7 @@ impl SvgElement {
                     let cx = strp(cx)?;
                     let cy = strp(cy)?;
                     let r = strp(r)? * FRAC_1_SQRT_2;
-                    Ok(Some(BoundingBox::new(cx - r, cy - r, cx + r, cy + r)))
+                    self.transformed(Some(BoundingBox::new(cx - r, cy - r, cx + r, cy + r)))
                 } else {
                     Ok(None)
                 }
@@ -696,7 +696,7 @@ impl SvgElement {
                     let cy = strp(cy)?;
                     let rx = strp(rx)? * FRAC_1_SQRT_2;
                     let ry = strp(ry)? * FRAC_1_SQRT_2;
-                    Ok(Some(BoundingBox::new(cx - rx, cy - ry, cx + rx, cy + ry)))
+                    self.transformed(Some(BoundingBox::new(cx - rx, cy - ry, cx + rx, cy + ry)))
                 } else {
                     Ok(None)
                 }
